@@ -145,10 +145,13 @@ type goSite struct {
 	stmt   *ast.GoStmt
 	lit    *ast.FuncLit // the closure, or a literal synthesised from decl (go f(args))
 	role   string
-	inLoop *ast.ForStmt // innermost for loop (in the spawner or in the helper holding the statement) that repeats it
-	decl   *FuncInfo    // the declared function started by `go f(args)`; nil for a closure
-	unit   *unit        // the goroutine's unit (== model.units[lit])
-	host   *FuncInfo    // function that lexically contains the go statement
+	inLoop *ast.ForStmt // innermost for loop (in the spawner or in the helper holding the statement) that repeats it (nil when the loop is a range loop: see loopStmt)
+	// loopStmt is the innermost loop statement that repeats the go statement: a *ast.ForStmt (then inLoop is set too) or
+	// a *ast.RangeStmt (`for i := range dec.inputs` over a presized slice).
+	loopStmt ast.Stmt
+	decl     *FuncInfo // the declared function started by `go f(args)`; nil for a closure
+	unit     *unit     // the goroutine's unit (== model.units[lit])
+	host     *FuncInfo // function that lexically contains the go statement
 	// rootPos is the position inside the root spawner at which the goroutine is started: the go statement
 	// itself, or the spawner's call to the helper that holds it.
 	rootPos token.Pos
@@ -253,11 +256,9 @@ func buildPBFModel(p *core.Program) *pbfModel {
 				g.decl = m.funcs[fn]
 				g.lit = &ast.FuncLit{Type: g.decl.Decl.Type, Body: g.decl.Decl.Body}
 			}
-			if l := enclosing(par, gs, func(n ast.Node) bool { _, ok := n.(*ast.ForStmt); return ok }); l != nil {
-				g.inLoop = l.(*ast.ForStmt)
-			}
-			if enclosing(par, gs, func(n ast.Node) bool { _, ok := n.(*ast.RangeStmt); return ok }) != nil {
-				m.fail("go statement inside a range loop at %s", p.Rel(gs.Pos()))
+			if l := enclosing(par, gs, pbfIsLoop); l != nil {
+				g.loopStmt = l.(ast.Stmt)
+				g.inLoop, _ = l.(*ast.ForStmt)
 			}
 			if lit := enclosing(par, gs, func(n ast.Node) bool { _, ok := n.(*ast.FuncLit); return ok }); lit != nil {
 				m.fail("go statement nested in a function literal at %s", p.Rel(gs.Pos()))
@@ -367,12 +368,13 @@ func buildPBFModel(p *core.Program) *pbfModel {
 			}
 			found = true
 			g.rootPos = s.rootPos(n)
-			if g.inLoop == nil {
-				for i := len(s.frames) - 2; i >= 0 && g.inLoop == nil; i-- {
+			if g.loopStmt == nil {
+				for i := len(s.frames) - 2; i >= 0 && g.loopStmt == nil; i-- {
 					fr := s.frames[i]
 					par := parentsOf(p, fr.u.fi)
-					if l := enclosing(par, fr.link, func(n ast.Node) bool { _, ok := n.(*ast.ForStmt); return ok }); l != nil {
-						g.inLoop = l.(*ast.ForStmt)
+					if l := enclosing(par, fr.link, pbfIsLoop); l != nil {
+						g.loopStmt = l.(ast.Stmt)
+						g.inLoop, _ = l.(*ast.ForStmt)
 					}
 				}
 			}
@@ -387,7 +389,7 @@ func buildPBFModel(p *core.Program) *pbfModel {
 	for _, g := range m.gos {
 		u := g.unit
 		switch {
-		case g.inLoop != nil:
+		case g.loopStmt != nil:
 			g.role = "worker"
 		case m.unitReaches(u, func(x *unit) bool { return m.unitCalls(x, "io", "ReadFull") }):
 			g.role = "reader"
@@ -458,6 +460,26 @@ func buildPBFModel(p *core.Program) *pbfModel {
 		m.fail("per-worker decoder (the receiver of the method returning ([]osm.Object, error) that the worker goroutine calls)")
 	}
 	return m
+}
+
+// pbfIsLoop reports whether n is a for or range statement.
+func pbfIsLoop(n ast.Node) bool {
+	switch n.(type) {
+	case *ast.ForStmt, *ast.RangeStmt:
+		return true
+	}
+	return false
+}
+
+// pbfLoopBody returns the body of a for / range statement.
+func pbfLoopBody(l ast.Stmt) *ast.BlockStmt {
+	switch x := l.(type) {
+	case *ast.ForStmt:
+		return x.Body
+	case *ast.RangeStmt:
+		return x.Body
+	}
+	return nil
 }
 
 func pbfIsError(t types.Type) bool {
@@ -1041,15 +1063,41 @@ func (m *pbfModel) returnsOf(fi *FuncInfo, idx int) []ast.Expr {
 		case *ast.FuncLit:
 			return false
 		case *ast.ReturnStmt:
-			if idx < len(s.Results) {
+			switch {
+			case idx < len(s.Results):
 				out = append(out, s.Results[idx])
-			} else {
+			case len(s.Results) == 1 && idx > 0:
+				out = append(out, nil) // `return f()` forwarding a tuple
+			case len(s.Results) == 0:
+				// bare return of named results: the result variable itself (its definitions are followed)
+				out = append(out, pbfNamedResult(fi, idx))
+			default:
 				out = append(out, nil)
 			}
 		}
 		return true
 	})
 	return out
+}
+
+// pbfNamedResult returns the declaring identifier of the idx-th named result of fi (nil when results are unnamed).
+func pbfNamedResult(fi *FuncInfo, idx int) ast.Expr {
+	if fi.Decl.Type.Results == nil {
+		return nil
+	}
+	k := 0
+	for _, fld := range fi.Decl.Type.Results.List {
+		for _, nm := range fld.Names {
+			if k == idx {
+				return nm
+			}
+			k++
+		}
+		if len(fld.Names) == 0 {
+			k++
+		}
+	}
+	return nil
 }
 
 // ---- channels ----
@@ -1090,7 +1138,7 @@ func (m *pbfModel) classesOf(e ast.Expr, seen map[types.Object]bool) map[string]
 	switch x := e.(type) {
 	case *ast.SelectorExpr:
 		if f := fieldOf(m.info, x); f != nil {
-			out[f.Name()] = true
+			out[m.classNameOf(x, f)] = true
 		}
 	case *ast.IndexExpr:
 		add(m.classesOf(x.X, seen))
@@ -1112,6 +1160,9 @@ func (m *pbfModel) classesOf(e ast.Expr, seen map[types.Object]bool) map[string]
 				add(m.classesOf(d.e, seen))
 			}
 		}
+		// registered in a slice of the decoder in another way: stored into an element (`dec.F[i] = o`), put into a
+		// struct that is appended / stored (`dec.L = append(dec.L, T{in: o})`), or returned to a caller that does so
+		add(m.registeredClasses(o, seen))
 		// appended into a field: dec.F = append(dec.F, o)
 		if fi := m.funcAt(o.Pos()); fi != nil {
 			ast.Inspect(fi.Decl.Body, func(n ast.Node) bool {
@@ -1372,12 +1423,12 @@ func (m *pbfModel) chanField(class string) *types.Var {
 	if !ok {
 		return nil
 	}
-	for i := 0; i < st.NumFields(); i++ {
-		if st.Field(i).Name() == class {
-			return st.Field(i)
-		}
+	slot := m.slotOf(class)
+	if slot.elem != nil {
+		return slot.elem
 	}
-	return nil
+	_ = st
+	return slot.slice
 }
 
 // pipelineClasses returns the channel classes by role: in = what the workers receive from, out = what the workers
